@@ -941,7 +941,7 @@ impl<'de, R: Read<'de>> Parser<R> {
                     b'.' => {
                         self.eat_char();
                         let next = self.peek_or_null()?;
-                        if next == 0 || is_delimiter(next) {
+                        if next == 0 || is_symbol_terminator(next) {
                             if !have_value {
                                 return Err(match self.peek()? {
                                     Some(_) => self.peek_error(ErrorCode::ExpectedSomeValue),
@@ -1005,7 +1005,7 @@ impl<'de, R: Read<'de>> Parser<R> {
                         let start = self.read.position();
                         self.eat_char();
                         let next = self.peek_or_null()?;
-                        if next == 0 || is_delimiter(next) {
+                        if next == 0 || is_symbol_terminator(next) {
                             if !have_value {
                                 return Err(match self.peek()? {
                                     Some(_) => self.peek_error(ErrorCode::ExpectedSomeValue),
@@ -1442,6 +1442,13 @@ static SYMBOL_EXTENDED: [u8; 16] = [
 
 fn is_delimiter(c: u8) -> bool {
     c.is_ascii_whitespace() || b"|()[]\";".contains(&c)
+}
+
+// The bytes at which the symbol scanners in `read` stop. A dot followed by
+// anything else is the start of a symbol, at the top level as well as inside
+// of lists.
+fn is_symbol_terminator(c: u8) -> bool {
+    b" \n\t\r\x0C()[];".contains(&c)
 }
 
 // This implements the <sign subsequent> nonterminal of R7RS 7.1.1
